@@ -653,3 +653,46 @@ def gen_rwait(idx):
     m.output = [("x", ("ref", "x"), "yaql")]
     m.tags |= {"join", "fork", "rwait", "retry"}
     return m, {}
+
+
+def cmd_family():
+    """engine commands beside each other: a task t1 (behind t0, which publishes) with one or two transitions, each with a
+    condition (none / succeeded / failed), a do-list from {nothing (implicit continue), continue, noop, fail, noop+fail,
+    t2+fail, t2} and with or without a publish, for both outcomes of t1"""
+    if "cmd" in _SHAPES:
+        return _SHAPES["cmd"]
+    conds = [None, ("succeeded",), ("failed",)]
+    dos = [[], ["continue"], ["noop"], ["fail"], ["noop", "fail"], ["t2", "fail"], ["t2"]]
+    one = [(c, d, p) for c in range(3) for d in range(len(dos)) for p in (0, 1)]
+    fam = [(o, (a,)) for o in (0, 1) for a in one] + [(o, (a, b)) for o in (0, 1) for a in one for b in one]
+    _SHAPES["cmd"] = fam
+    _SHAPES["cmd_tables"] = (conds, dos)
+    return fam
+
+
+def gen_cmds(idx):
+    fam = cmd_family()
+    conds, dos = _SHAPES["cmd_tables"]
+    outcome, trs = fam[idx % len(fam)]
+    m = Model()
+    m.input = [("xs", [10, 20, 30]), ("n", 2), ("k", 2)]
+    m.vars = [("x", "init.x"), ("y", "init.y")]
+    t0, t1, t2 = Task("t0"), Task("t1"), Task("t2")
+    t0.action = "ovf.ok"
+    t0.trans.append(Tr(0, cond=("succeeded",), lang="yaql", pubs=[("x", ("cat", "x", "|t0"))], do=["t1"]))
+    t1.action = "ovf.fail" if outcome else "ovf.ok"
+    for k, (c, d, p) in enumerate(trs):
+        pubs = [("y", ("cat", "y", "|t1.%d" % k))] if p else []
+        do = list(dos[d])
+        if not do and not pubs:
+            do = ["continue"]
+        t1.trans.append(Tr(k, cond=conds[c], lang=("yaql", "jinja")[k % 2], pubs=pubs, do=do))
+    t2.action = "ovf.ok"
+    for t in (t0, t1, t2):
+        m.tasks[t.name] = t
+    if not any("t2" in tr.do for tr in t1.trans):
+        del m.tasks["t2"]
+    m.output = [("x", ("ref", "x"), "yaql"), ("y", ("ref", "y"), "jinja")]
+    _tag(m)
+    m.tags.add("cmds")
+    return m, {}
